@@ -120,7 +120,7 @@ def roots(tier):
 def instances(root):
     """Yield the instances (pure data) of one root."""
     fn, n, bp, tier = root["fn"], root["n"], root["bp"], root.get("tier", "quick")
-    thin = n >= 3 if tier == "quick" else n >= 4
+    thin = n >= 3
     very_thin = n >= 4
     gl = grads(n, thin)
     if very_thin:
